@@ -78,6 +78,8 @@ TestCodes == {0, 999, 1000, 1001, 1002, 1003, 1004, 1005, 1006, 1007, 1008, 1009
 \* 0x00 of RFC 7692 7.2.3.6; "bomb" = literal + (length 258, distance 1) matches, lower bound).
 Inflated(pcl, n) == IF pcl = "bomb" THEN 1 + 258 * ((8 * n - 21) \div 13)
                     ELSE IF n <= 1 THEN 0 ELSE n - 2
+\* what the first n bytes of a longer "lit" stream already inflate to (3 header bits, then 8 bits per literal)
+PartialInflated(pcl, n) == IF pcl = "bomb" THEN Inflated(pcl, n) ELSE IF n = 0 THEN 0 ELSE n - 1
 
 ---------------------------------------------------------------------------
 (* --- the rule table (used by the property and to prune the enumeration) --- *)
@@ -132,7 +134,7 @@ DataStep(st, f, i, p) ==
   IF p.rl > 0 /\ acc > p.rl
     THEN Fail(st, i, "toobig", {1009}, {}, {})                 \* wire size of the message > read limit
   ELSE IF ~f.fin THEN
-    IF comp /\ p.dl > 0 /\ Inflated(pcl, acc) > p.dl
+    IF comp /\ p.dl > 0 /\ PartialInflated(pcl, acc) > p.dl
       \* the unfinished message already inflates beyond the limit: WHEN a streaming decoder reports it
       \* (now, at a later frame, at the end of the message) is not fixed by anything
       THEN Fail(st, i, "unspec", {}, {}, {})
